@@ -314,5 +314,5 @@ def _run(case):
     return res
 
 
-PROFILES = {"history": Profile("history", cases, run, quick=4000, thorough=60000, timeout=60)}
+PROFILES = {"history": Profile("history", cases, run, quick=12000, thorough=300000, timeout=60)}
 KNOWN = {}
